@@ -9,10 +9,14 @@ FIXED = [
  ("KF-C01-4", "C01", "85d6013", "C01.same_outcome", "a function that defines a class in its body fails with PteraNameError / NameError once instrumented"),
  ("KF-C01-5", "C01", "4d5f0fd", "C01.instrumentable", "a function with a nonlocal/global declaration cannot be instrumented: SyntaxError 'name used prior to nonlocal declaration'"),
  ("KF-C01-6", "C01", "f7c1846", "C01.instrumentable", "a function containing a loop with a starred target (for a, *rest in ...) cannot be instrumented: NotImplementedError when a probe is activated or tooled() is applied"),
+ ("KF-C01-7", "C01", "7cbc100", "C01.same_outcome", "a function with a local annotation that cannot be evaluated (y: OnlyForTypeCheckers = v) raises once instrumented; Python never evaluates such annotations"),
  ("KF-C02-1", "C02", "f50c678", "C02.activation", "a variable assigned only inside an except block cannot be probed: 'Cannot find a variable named ...'"),
  ("KF-C02-2", "C02", "f35605b", "C02.stream", "'import os.path' binds os but a probe on os receives no event"),
  ("KF-C02-3", "C02", "bc90bec", "C02.stream", "a probe on the target of 'with cm() as w' receives no event (and the target is missing as context)"),
  ("KF-C02-4", "C02", "cfa9e89", "C02.stream", "an assignment expression nested in the right-hand side of an assignment (y = (u := f()) + ...) produces no event"),
+ ("KF-C02-5", "C02", "2c06b0b", "C02.stream", "an assignment expression inside a lambda ((lambda: (y := v))()) is reported as a binding of the enclosing function's y"),
+ ("KF-C02-6", "C02", "53d2f6f", "C02.stream", "an assignment expression in the index of a subscript target (o[(k := v)] = w) produces no event for k"),
+ ("KF-C05-5", "C05", "3c5b147", "C05.module_namespace", "deactivating the last probe on a function leaves a None key in the globals of the function's module"),
  ("KF-C06-2", "C06", "cfa9e89", "C06.meta", "'r = yield v' produces no #yield / #receive events"),
  ("KF-C07-1", "C07", "d3b8222", "C07.records", "with a total selector f(g(h(c))) and g recursive, each value of c is listed twice in the record of the call of f"),
  ("KF-C05-1", "C05", "56e9529", "C05.no_handlers", "global probes A then B activated, A deactivated first: B stops receiving events and A's handler comes back for good when B is deactivated"),
